@@ -65,6 +65,11 @@ def filter_pool(rng, n, objs_tr):
                {"type": "prop", "name": "SUMMARY", "text_match": {"text": "late master", "collation": None, "negate": False}}):
         if rng.random() < 0.6:
             pool.append(({"type": "comp", "name": "VCALENDAR", "children": [{"type": "comp", "name": "VEVENT", "children": [pf]}]}, None, "filter/one-positive-condition-met-by-a-later-component"))
+    # a negated text-match on a property that some of the objects do not have
+    for comp, pname, text in (("VEVENT", "LOCATION", "Room 1"), ("VEVENT", "DESCRIPTION", "nothing"), ("VTODO", "STATUS", "COMPLETED"), ("VEVENT", "X-CUSTOM", "alpha")):
+        if rng.random() < 0.6:
+            pf = {"type": "prop", "name": pname, "text_match": {"text": text, "collation": None, "negate": True}}
+            pool.append(({"type": "comp", "name": "VCALENDAR", "children": [{"type": "comp", "name": comp, "children": [pf]}]}, None, "filter/negated-text-match-on-a-property-some-objects-lack"))
     # filters that extend another pool filter: same first key group, further keys (a second
     # prop-filter or a time-range in the same component)
     import copy
